@@ -232,7 +232,7 @@ Definition with_percall (cfg : config) (t : Z) : config :=
   {| ex_neg := ex_neg cfg; ex_inv := ex_inv cfg; ex_unx := ex_unx cfg; tol_pad := tol_pad cfg;
      ign_zero := ign_zero cfg; use_srv := use_srv cfg; std := std cfg; req_to := Some t; p2 := t;
      p2s := p2s cfg; has_cb := has_cb cfg; srv_addr := srv_addr cfg; srv_size := srv_size cfg;
-     snap_did := snap_did cfg; ext_size := ext_size cfg; algo := algo cfg; algo_prm := algo_prm cfg |}.
+     snap_did := snap_did cfg; ext_size := ext_size cfg; algo := algo cfg; algo_prm := algo_prm cfg; dids := dids cfg; ios := ios cfg |}.
 Definition without_server_p2 (st : cstate) : cstate :=
   {| st_p2 := None; st_p2s := st_p2s st; spr_on := spr_on st; spr_wait := spr_wait st; ov := ov st |}.
 
@@ -312,7 +312,7 @@ Qed.
 Definition cfg_default : config :=
   {| ex_neg := true; ex_inv := true; ex_unx := true; tol_pad := true; ign_zero := true; use_srv := true;
      std := 2020; req_to := Some 5000000; p2 := 1000000; p2s := 5000000; has_cb := true;
-     srv_addr := None; srv_size := None; snap_did := 2; ext_size := None; algo := 0; algo_prm := -1 |}.
+     srv_addr := None; srv_size := None; snap_did := 2; ext_size := None; algo := 0; algo_prm := -1; dids := []; ios := [] |}.
 
 (* a timeout is reported only for a window that contained no arrival *)
 Lemma wait_loop_timeout_sound cfg p2star rsid spr deadline s :
